@@ -152,10 +152,12 @@ def h_parse(k):
     return run
 
 
-def h_roundtrip(n):
+def h_roundtrip(n, name_len=8):
+    NAME = ('source_7' + 'x' * 40)[:name_len]
+
     def run(part):
         std_assumptions(part)
-        part.bounds = {'filters': n, 'values': 'any reals for x, y, fluxes, errors; every flag vector position symbolic over the allowed set is '
+        part.bounds = {'filters': n, 'name_length': name_len, 'values': 'any reals for x, y, fluxes, errors; every flag vector position symbolic over the allowed set is '
                        'covered by concrete flag vectors cycling through {0,1,2,3,4,9}'}
         part.assumptions.add("printed numbers are injective sentinels: which value lands in which column is decided, printed precision is not")
         L = loader.Loader()
@@ -166,7 +168,7 @@ def h_roundtrip(n):
 
         def body(c):
             s = S()
-            s.name = 'source_7'
+            s.name = NAME
             x, y = C.fresh_real('x'), C.fresh_real('y')
             s.x, s.y = x, y
             s.valid = np.array(flags, dtype=int)
@@ -189,7 +191,7 @@ def h_roundtrip(n):
                     continue
                 x, y, F, E = c.vars
                 s, back, d, p = out[1]
-                ok = back.name == 'source_7' and [int(v) for v in back.valid] == flags and len(back.flux) == n and len(back.error) == n
+                ok = back.name == NAME and [int(v) for v in back.valid] == flags and len(back.flux) == n and len(back.error) == n
                 ok = ok and c.decode(back.x) is x and c.decode(back.y) is y
                 for j in range(n):
                     ok = ok and c.decode(back.flux[j]) is symnp._plain(F)[j] and c.decode(back.error[j]) is symnp._plain(E)[j]
@@ -213,6 +215,8 @@ def configs(tier, seed):
         cfgs.append(Config('parse k=%d columns' % k, h_parse(k), 1500))
     for n in ([0, 1, 3, 6] if tier == 'quick' else [0, 1, 2, 3, 4, 6, 9, 12]):
         cfgs.append(Config('round trips n=%d' % n, h_roundtrip(n), 600))
+    for n, ln in ((1, 30), (2, 31), (0, 40), (3, 40)):
+        cfgs.append(Config('round trips n=%d name of %d characters' % (n, ln), h_roundtrip(n, ln), 600))
     return cfgs
 
 
